@@ -80,6 +80,8 @@ type Interp struct {
 	curPos    token.Pos
 	onceDone  map[*Value]bool
 	ownInit   bool
+	raceOn    bool
+	shadows   map[*Value]*shadow
 	pools     map[*Value][]Value
 	permCache map[string][]int
 	objIDs    map[interface{}]uint64
@@ -304,6 +306,9 @@ func load(addr *Value) Value { return copyVal(*addr) }
 // store writes v into the cell, field-wise for structs and arrays so that interior pointers
 // obtained earlier (FieldAddr/IndexAddr) stay valid, as in Go.
 func (in *Interp) store(addr *Value, v Value) {
+	if in.raceOn {
+		in.raceAccess(addr, true)
+	}
 	if in.frozen != nil {
 		if lbl, ok := in.frozen[addr]; ok {
 			in.frozenWrite("store", lbl)
@@ -641,6 +646,9 @@ func (in *Interp) unopInstr(fr *frame, instr *ssa.UnOp) Value {
 		p := x.(*Value)
 		if p == nil {
 			in.rtPanic("invalid memory address or nil pointer dereference")
+		}
+		if in.raceOn {
+			in.raceAccess(p, false)
 		}
 		return load(p)
 	case token.ARROW:
